@@ -37,3 +37,14 @@ package main
 //@   ensures{C08,C10,C16} config-plumbed: forallEv(i, evIs(i, "call:moq.New") ==> evArg(i, 0).SrcDir == old(flags.args[0]) && evArg(i, 0).PkgName == flags.pkgName && evArg(i, 0).Formatter == flags.formatter && evArg(i, 0).StubImpl == flags.stubImpl && evArg(i, 0).SkipEnsure == flags.skipEnsure && evArg(i, 0).WithResets == flags.withResets)
 //@   ensures{C20} args-plumbed: forallEv(i, evIs(i, "call:moq.Mocker.Mock") ==> evArg(i, 2) == flags.args[1:] && existsEv(j, j < i && evIs(j, "call:moq.New") && evRes(j, 0) == evArg(i, 0)))
 //@   ensures{C17} file-content-is-buffer: forallEv(i, evIs(i, "os.WriteFile") ==> existsEv(j, j < i && evIs(j, "call:moq.Mocker.Mock") && existsEv(b, b > j && b < i && evIs(b, "(*bytes.Buffer).Bytes") && evArg(b, 0) == evArg(j, 1) && evArg(i, 1) == evRes(b))))
+
+//@ func main.main
+//@   props C17
+//@   safety C19
+//@   effect fs-read fs-write io-write stdout exit flag dynamic
+//@   modifies H:, A:, M:, G:
+//@   ensures{C17,C19} error-goes-to-stderr-and-exit-1: forallEv(i, evIs(i, "call:main.run") && evRes(i) != nil ==> existsEv(j, k, i < j && j < k && evIs(j, "fmt.Fprintln") && evArg(j, 0) == global("os.Stderr") && evArg(j, 2) == evRes(i) && evIs(k, "os.Exit") && evArg(k, 0) == 1 && forallEv(q, q > k ==> !effectful(q))))
+//@   ensures{C17} error-writes-nothing-to-stdout-directly: forallEv(i, j, evIs(i, "call:main.run") && evRes(i) != nil && j > i && evIs(j, "fmt.Fprintln") ==> evArg(j, 0) == global("os.Stderr"))
+//@   ensures{C17} success-exits-zero: forallEv(i, evIs(i, "call:main.run") && evRes(i) == nil ==> forallEv(k, k > i ==> !effectful(k) && !evKind(k, "dynamic")))
+//@   ensures{C17} run-at-most-once: forallEv(i, j, evIs(i, "call:main.run") && evIs(j, "call:main.run") ==> i == j)
+//@   ensures{C08,C10,C16} flags-passed: forallEv(i, evIs(i, "call:main.run") ==> forallEv(j, j < i && evIs(j, "flag.Args") ==> evArg(i, 0).args == evRes(j)))
